@@ -43,7 +43,9 @@ CONSTANTS
   MaxFails,     \* budget of failing builder invocations
   MaxNow,       \* bound of the tick counter
   EnvOps,       \* BOOLEAN: external ExpireAll / Delete on the backend allowed
-  RunToGate     \* BOOLEAN: generator discipline (see above)
+  RunToGate,    \* BOOLEAN: generator discipline (see above)
+  Serial        \* BOOLEAN: calls do not overlap - a Get starts only when every earlier one, background build included,
+                \* has finished (the sequential specification of the Failover: several Gets, ticks in between)
 
 VARIABLES
   now,
@@ -200,6 +202,7 @@ FoldTTL(cell, t) == IF t # 0 /\ (cell = 0 \/ cell > t) THEN t ELSE cell
 
 Start(p) ==
   /\ pc[p] = "idle"
+  /\ Serial => \A q \in Procs \ {p} : pc[q] \in {"idle", "done"}
   /\ Step(p, "Start", "", IF SyncRead THEN "elect" ELSE "preread")
   /\ Run(p, lrec)
   /\ UNCHANGED <<now, be, errs, stored, writes, bsrc, locks, lrec, nlock, loc, res, building, nb, produced, berrs,
